@@ -13,6 +13,10 @@ def scenarios(seed, tier, failed):
                                                               (False, True), ('after', 'before')):
         yield {'kind': 'pubsub', 'spy': spy, 'when': when, 'other_first': other_first, 'pub_when': pub_when,
                'timeout': 30}
+    for spy in (True, False):
+        for when in ('after', 'inside', 'before'):
+            yield {'kind': 'pubsub', 'spy': spy, 'when': when, 'other_first': True, 'pub_when': 'before',
+                   'two_signals': True, 'other_kind': 'lifo', 'timeout': 30}
 
 
 def run(sc):
@@ -31,14 +35,18 @@ def run(sc):
             if e.signal == signals.ENTRY_SIGNAL:
                 if subscribe_inside:
                     chart.subscribe(Event(signal=sig))
+                    if sc.get('two_signals'):
+                        chart.subscribe(Event(signal=sig + '_B'))
                 return return_status.HANDLED
             if e.signal in (signals.EXIT_SIGNAL, signals.INIT_SIGNAL):
                 return return_status.HANDLED
-            if e.signal_name == sig:
+            if e.signal_name in (sig, sig + '_B'):
                 log.append(e.signal_name)
                 return return_status.HANDLED
             if e.signal_name == 'C07_DO_PUBLISH':
                 chart.publish(Event(signal=sig))
+                if sc.get('two_signals'):
+                    chart.publish(Event(signal=sig + '_B'))
                 return return_status.HANDLED
             chart.temp.fun = chart.top
             return return_status.SUPER
@@ -52,7 +60,7 @@ def run(sc):
         log, olog, plog = [], [], []
         if sc['other_first']:
             other, ofn = make('other', olog, False)
-            other.subscribe(Event(signal=sig))
+            other.subscribe(Event(signal=sig), queue_type=sc.get('other_kind', 'fifo'))
             other.start_at(ofn)
             time.sleep(0.05)
         sub, sfn = make('subscriber', log, sc['when'] == 'inside')
@@ -61,11 +69,15 @@ def run(sc):
             pub.start_at(pfn)
         if sc['when'] == 'before':
             sub.subscribe(Event(signal=sig))
+            if sc.get('two_signals'):
+                sub.subscribe(Event(signal=sig + '_B'))
             sub.start_at(sfn)
         elif sc['when'] == 'after':
             sub.start_at(sfn)
             time.sleep(0.05)
             sub.subscribe(Event(signal=sig))
+            if sc.get('two_signals'):
+                sub.subscribe(Event(signal=sig + '_B'))
         else:
             sub.start_at(sfn)
         time.sleep(0.1)
@@ -74,13 +86,17 @@ def run(sc):
             time.sleep(0.05)
         pub.post_fifo(Event(signal='C07_DO_PUBLISH'))
         t0 = time.time()
-        while not log and time.time() - t0 < 0.7:
+        want = 2 if sc.get('two_signals') else 1
+        while len(log) < want and time.time() - t0 < 0.7:
             time.sleep(0.01)
         time.sleep(0.05)
         cfg = 'spy=%s subscribe %s start, other subscriber first=%s' % (sc['spy'], sc['when'], sc['other_first'])
-        if len(log) != 1:
+        if sorted(log) != sorted([sig, sig + '_B'][:want]):
             key = 'ao.subscribe' if (sc['spy'] or sc['other_first']) else 'ao.'
-            return False, 'publication reached the subscriber %d times (%s)' % (len(log), cfg), key
+            if sc.get('two_signals'):
+                key = '*'
+            return False, 'subscriber received %s, expected one each of %d signal(s) (%s)' % (
+                [x.split('_')[-1] for x in log], want, cfg), key
         if sc['other_first'] and len(olog) != 1:
             return False, 'publication reached the earlier subscriber %d times (%s)' % (len(olog), cfg), 'ao.publish'
         return True, ''
